@@ -36,7 +36,7 @@ GEN_RELEVANT = {
     "C02": _DEC, "C03": _DEC[:-1] + r"|matrix|sub_replay_unwraps)",
     "C04": r"^(matrix|max_id|id_guard|version_cmp|gr_parse|gr_default|cmd_parse)",
     "C07": r"^(req_min|rep_min|rep_rejects)", "C08": r"^(req_min|rep_min|req_recv)", "C09": r"^(max_id)",
-    "C11": r"^(pub_|xpub_|sub_op)", "C12": r"^(hwm)", "C13": r"^(sub_)", "C14": r"^(req_recv)",
+    "C11": r"^(pub_|xpub_|sub_op)", "C12": r"^(hwm)", "C13": r"^(sub_)", "C14": r"^(req_recv)", "C06": r"^(fq_)",
     "C16": r"^(rep_disconnect|sub_disconnect|dealer_error|router_send_error|rep_send_error|req_send_error|req_recv_error)",
     "C20": r"^(tcp_accept|ipc_accept)",
     "C17": r"^(generic_shutdown|rep_shutdown|sub_shutdown|xpub_shutdown|queue_clear|sockets_with_drop)",
